@@ -8,10 +8,12 @@ import (
 	"bufio"
 	"bytes"
 	"encoding/json"
+	"encoding/xml"
 	"flag"
 	"fmt"
 	"io"
 	"net/http"
+	"net/url"
 	"os"
 	"strings"
 	"sync"
@@ -31,6 +33,66 @@ func (h *capHTTP) Do(req *http.Request) (*http.Response, error) {
 	hd := http.Header{}
 	hd.Set("Content-Type", "text/xml")
 	return &http.Response{StatusCode: 207, Status: "207 Multi-Status", Header: hd, Body: io.NopCloser(strings.NewReader(`<multistatus xmlns="DAV:"/>`)), Request: req}, nil
+}
+
+// hrefTexts reads the DAV:href children of a captured request body (lexically, independent of the library)
+func hrefTexts(body []byte) []string {
+	out := []string{}
+	d := xml.NewDecoder(bytes.NewReader(body))
+	depth := 0
+	in := false
+	var cur strings.Builder
+	for {
+		tok, err := d.Token()
+		if err != nil {
+			return out
+		}
+		switch t := tok.(type) {
+		case xml.StartElement:
+			depth++
+			if depth == 2 && t.Name.Space == "DAV:" && t.Name.Local == "href" {
+				in = true
+				cur.Reset()
+			}
+		case xml.CharData:
+			if in {
+				cur.Write(t)
+			}
+		case xml.EndElement:
+			if in && depth == 2 {
+				out = append(out, cur.String())
+				in = false
+			}
+			depth--
+		}
+	}
+}
+
+// selfTwice: a multiget without paths means "the collection itself"; the same request value used for two collections in a
+// row must name each collection in turn (whatever the first call did must not stick to the value)
+func selfTwice(call func(path string) error, ch *capHTTP, a, b string, emit func(interface{})) {
+	name := func(hs []string) []string {
+		out := []string{}
+		for _, h := range hs {
+			u, err := url.Parse(h)
+			switch {
+			case err == nil && u.Path == a:
+				out = append(out, "first")
+			case err == nil && u.Path == b:
+				out = append(out, "second")
+			default:
+				out = append(out, "?"+h)
+			}
+		}
+		return out
+	}
+	ch.body = nil
+	err1 := call(a)
+	h1 := name(hrefTexts(ch.body))
+	ch.body = nil
+	err2 := call(b)
+	h2 := name(hrefTexts(ch.body))
+	emit(map[string]interface{}{"k": "mgself", "i": 1, "err": err1 != nil || err2 != nil, "first": h1, "second": h2})
 }
 
 func readCases(path string, each func([]byte)) {
@@ -59,13 +121,16 @@ func mustJSON(b []byte, v interface{}) {
 var concs = map[string]map[string]string{
 	"plain": {"t0": "alpha", "t1": "beta", "t2": "gamma", "n1": "EMAIL", "n2": "X-FOO", "n3": "TYPE"},
 	"meta":  {"t0": "  lead&trail <x>  ", "t1": "plain", "t2": "é\"q'\t]]>", "n1": "EMAIL", "n2": "X-FOO&<", "n3": "TY PE"},
-	"odd":   {"t0": " ", "t1": "&amp;", "t2": "<![CDATA[x]]>", "n1": "n", "n2": "N", "n3": "ünï"},
+	"odd":   {"t0": " ", "t1": "a\rb\r\nc\n", "t2": "<![CDATA[x]]>", "n1": "n", "n2": "N", "n3": "ünï"}, // t1: line ends of every kind (a reader normalises unescaped CR)
 }
 
 func main() {
 	proto := flag.String("proto", "card", "card | cal")
 	dir := flag.String("dir", "", "directory with the generated cases")
 	out := flag.String("out", "", "output ndjson")
+	for _, m := range concs {
+		m["tbig"] = strings.Repeat("0123456789 <&> ", 6250) + "end" // 100 003 characters
+	}
 	conc := flag.String("conc", "meta", "")
 	mod := flag.Int("mod", 1, "")
 	rem := flag.Int("rem", 0, "")
